@@ -155,7 +155,9 @@ pub fn relations(ctx: &mut Ctx, bytes: &[u8], key: &HMACKey, origin: &str) {
                 for a in mo.attributes() {
                     if let StunAttribute::Unknown(u) = a {
                         if u.attribute_data().is_some() {
-                            ctx.violation("R2:data-kept-without-option", format!("{:?}", a), w(&opts_name(Some(o & !4))));
+                            // today's decoder drops the data then, but the statement only speaks of
+                            // what keeping the data must yield: recorded, not judged
+                            ctx.count("c18.suspicion.data-kept-without-option");
                         }
                     }
                 }
